@@ -8,7 +8,7 @@ import logging
 from harness import ashlib, fullstack
 from harness.ashlib import hx
 
-FAILS = ["error", "rstack_poweron", "rstack_unknown", "silent", "chatty", "lost_exc", "eof", "close"]
+FAILS = ["error", "error_unnamed", "rstack_poweron", "rstack_unknown", "rstack_unnamed", "silent", "chatty", "lost_exc", "eof", "close"]
 POINTS = ["idle", "inflight", "awaiting", "queued", "resetting", "abandoned"]
 
 
@@ -112,6 +112,11 @@ def scenario(n, fail, point, attached, batched, second=None, history=None):
                 pre = [(w.protocol.data_received, w.ncp.out.pop())]
             if fail == "error":
                 cbs = pre + [(w.protocol.data_received, ashlib.spec_wire("E", code=0x51))]
+            elif fail == "error_unnamed":
+                # a failure code the library has no name for (newer firmware, chip specific): an NCP failure like any other
+                cbs = pre + [(w.protocol.data_received, ashlib.spec_wire("E", code=0x81))]
+            elif fail == "rstack_unnamed":
+                cbs = pre + [(w.protocol.data_received, ashlib.spec_wire("K", code=0x0C))]
             elif fail == "rstack_poweron":
                 cbs = pre + [(w.protocol.data_received, ashlib.spec_wire("K", code=0x02))]
             elif fail == "rstack_unknown":
@@ -269,7 +274,7 @@ def cases(ctx):
     return cs
 
 
-EVENT_OF = {"error": "fail81", "rstack_poweron": "fail2", "rstack_unknown": "fail0", "silent": "fail81", "chatty": "fail81", "lost_exc": "lost", "eof": "lost"}
+EVENT_OF = {"error": "fail81", "error_unnamed": "fail129", "rstack_unnamed": "fail12", "rstack_poweron": "fail2", "rstack_unknown": "fail0", "silent": "fail81", "chatty": "fail81", "lost_exc": "lost", "eof": "lost"}
 
 
 def run(ctx):
@@ -313,7 +318,7 @@ def run(ctx):
             # without an application attached the silent link still fails commands at the ASH layer
             if fail in ("silent", "chatty") and point == "resetting":
                 continue
-            if mreq != len(o["requests"]) or (m_after != i_after and not (m_after == "sent" and fail in ("silent", "chatty", "lost_exc", "eof", "error") and not attached)):
+            if mreq != len(o["requests"]) or (m_after != i_after and not (m_after == "sent" and fail in ("silent", "chatty", "lost_exc", "eof", "error", "error_unnamed") and not attached)):
                 ctx.corr_diff(f"EZSP failure reaction differs ({fail} at {point})", {"case": list(map(str, c))},
                               f"requests={len(o['requests'])} after={o['after']} running={o['running_after']}", model[i])
         if i % 25 == 0:
